@@ -4,7 +4,7 @@
 // routing rule) is stepped in lock-step with the real mailbox.DirHandler working on a tmpfs
 // directory. Every observable the package offers is compared with the model: return values of the
 // operations, the four folder listings (MIDs, bytes modulo the headers the mailbox adds itself,
-// unread flag), the four *Count methods, GetOutbound for twelve forwarder lists ({}, {A}, {A,B}, duplicates, other spellings, strangers, SMTP) and
+// unread flag), the four *Count methods, GetOutbound for fifteen forwarder lists ({}, {A}, {A,B}, duplicates, other spellings, strangers, SMTP) and
 // GetInboundAnswer for every MID of the universe.
 package c10
 
@@ -89,11 +89,14 @@ var casts = [][3]variant{
 
 // forwarder lists as a remote may announce them (;FW is copied as received: duplicates, other
 // spellings of one address and addresses nobody writes to are all legal)
-var fwLists = [][]string{{}, {addrA}, {addrA, addrB}, {addrA, addrB, addrA}, {"n0aaa", addrA}, {"N0CCC"}, {"N0CCC", addrB}, {"N0BBB@winlink.org"}, {addrSMTP, addrSMTP}, {""}, {"", ""}, {"", addrB}}
-var fwNames = []string{"cms", "p2p-A", "p2p-AB", "p2p-ABA", "p2p-aA", "p2p-C", "p2p-CB", "p2p-B@winlink", "p2p-SS", "p2p-empty", "p2p-empty-empty", "p2p-empty-B"}
+var fwLists = [][]string{{}, {addrA}, {addrA, addrB}, {addrA, addrB, addrA}, {"n0aaa", addrA}, {"N0CCC"}, {"N0CCC", addrB}, {"N0BBB@winlink.org"}, {addrSMTP, addrSMTP}, {""}, {"", ""}, {"", addrB},
+	{"USER@Example.COM"}, {"smtp:user@example.com", addrB}, {"SMTP:User@example.com"}}
+var fwNames = []string{"cms", "p2p-A", "p2p-AB", "p2p-ABA", "p2p-aA", "p2p-C", "p2p-CB", "p2p-B@winlink", "p2p-SS", "p2p-empty", "p2p-empty-empty", "p2p-empty-B",
+	"p2p-S-other-case", "p2p-S-lower-proto-B", "p2p-S-with-proto"}
 
 // model-side normal form of the announced forwarder addresses, written out by hand
-var fwNorm = map[string]string{addrA: "N0AAA", addrB: "N0BBB", "n0aaa": "N0AAA", "N0CCC": "N0CCC", "N0BBB@winlink.org": "N0BBB", addrSMTP: "SMTP:user@example.com", "": ""}
+var fwNorm = map[string]string{addrA: "N0AAA", addrB: "N0BBB", "n0aaa": "N0AAA", "N0CCC": "N0CCC", "N0BBB@winlink.org": "N0BBB", addrSMTP: "SMTP:user@example.com", "": "",
+	"USER@Example.COM": "SMTP:USER@Example.COM", "smtp:user@example.com": "smtp:user@example.com", "SMTP:User@example.com": "SMTP:User@example.com"}
 
 // operation kinds
 const (
